@@ -67,8 +67,15 @@ class C16(Check):
                 nmsgs += 1
             elif x < 0.75 and nmsgs:
                 ops.append(["reorigin", rng.randrange(nmsgs), rng.randrange(nid)])
-            elif x < 0.80:
+            elif x < 0.79:
                 ops.append(["sid_bytes", rng.randrange(nid), rng.randrange(1000)])
+            elif x < 0.84 and nmsgs:
+                # bulk update that supplies the Session-Id as bytes together with a new origin,
+                # in either key order: the supplied bytes must be carried unchanged
+                ops.append(["reorigin_given", rng.randrange(nmsgs), rng.randrange(nid), rng.randrange(1000),
+                            rng.choice(["sid_first", "host_first"])])
+            elif x < 0.87:
+                ops.append(["typed_bytes", rng.randrange(len(TYPED)), rng.randrange(nid), rng.randrange(1000)])
             else:
                 if style == "frozen":
                     dt = 0.0
@@ -203,6 +210,35 @@ class C16(Check):
                         if ent[0].session_id_avp.data not in raw:
                             violations.append({"clause": "message carries the regenerated Session-Id",
                                                "sig": "C16/reorigin-not-in-dump", "detail": {"op": opi}})
+                    elif kind in ("reorigin_given", "typed_bytes"):
+                        st0 = (getattr(SessionHandler, "init", None), getattr(SessionHandler, "id", None))
+                        if kind == "typed_bytes":
+                            given = ("%s;%d;%d;given-t" % (ids[op[2]], 78, op[3])).encode()
+                            _, _, kw = TYPED[op[1]]
+                            m = resolved[op[1]](session_id=given, origin_host=ids[op[2]], **kw)
+                            got = m.session_id_avp.data
+                            carried = given in m.dump()
+                        else:
+                            if not msgs:
+                                continue
+                            ent = msgs.pop(op[1] % len(msgs))
+                            new = ids[op[2]]
+                            given = ("%s;%d;%d;given-u" % (new, 79, op[3])).encode()
+                            upd = {"session_id": given, "origin_host": new} if op[4] == "sid_first" else \
+                                {"origin_host": new, "session_id": given}
+                            ent[0].update_avps(upd)
+                            got = ent[0].session_id_avp.data
+                            carried = given in ent[0].dump()
+                        st1 = (getattr(SessionHandler, "init", None), getattr(SessionHandler, "id", None))
+                        if got != given or not carried:
+                            violations.append({"clause": "Session-Id supplied as bytes is carried unchanged",
+                                               "sig": "C16/bytes-altered/" + kind,
+                                               "detail": {"op": opi, "opspec": op, "given": given.decode(), "got": repr(got),
+                                                          "in_dump": carried}})
+                        elif st0 != st1:
+                            violations.append({"clause": "Session-Id supplied as bytes consumes nothing",
+                                               "sig": "C16/bytes-consumed/" + kind, "detail": {"op": opi, "before": st0, "after": st1}})
+                        hist_sig.append("g")
                     elif kind == "sid_bytes":
                         given = ("%s;%d;%d;given" % (ids[op[1]], 77, op[2])).encode()
                         st0 = (getattr(SessionHandler, "init", None), getattr(SessionHandler, "id", None))
